@@ -23,11 +23,15 @@ def family_source(fam: dict) -> str:
         ret = f" -> {param_src(f['ret'])}" if f.get("ret") else ""
         prov = f.get("provider")
         deco = "dltype.dltyped()" if prov is None else f"dltype.dltyped(PROVIDERS[{prov!r}])"
-        body = [f"    LOG.append(({fname!r}, threading.get_ident()))"]
+        # the value to return is fixed on entry: an inner (recursive) call of the same function sets its own
+        body = [f"    _rv = RET[{fname!r}][threading.get_ident()] if threading.get_ident() in RET[{fname!r}] else RET[{fname!r}][0]",
+                f"    LOG.append(({fname!r}, threading.get_ident()))"]
+        if fam.get("threads"):
+            body.append("    body_rendezvous()")   # every thread is inside the body at the same time
         if f.get("calls_inner"):
             inner = f["calls_inner"]
-            body.append(f"    INNER_RESULTS.append(run_inner({inner['fn']!r}, {inner['step']}))")
-        body.append(f"    return RET[{fname!r}][threading.get_ident()] if threading.get_ident() in RET[{fname!r}] else RET[{fname!r}][0]")
+            body.append(f"    if not getattr(DEPTH, 'inner', False):\n        INNER_RESULTS.append(run_inner({inner['fn']!r}, {inner['step']}))")
+        body.append("    return _rv")
         lines.append(f"@{deco}\ndef {fname}({', '.join(params)}){ret}:\n" + "\n".join(body) + "\n")
     return "\n".join(lines)
 
@@ -83,10 +87,43 @@ def run_family(fam: dict) -> dict:
         except BaseException as e:  # noqa: BLE001
             return I.canon_exc(e)
 
+    depth = threading.local()
+
     def run_inner(fname: str, idx: int):
-        return call_step(fam["inner_steps"][idx])
+        """A checked call made from inside a checked body: in this thread, or in another thread that is joined."""
+        st = fam["inner_steps"][idx]
+        if st.get("other_thread"):
+            box: list = []
+
+            def target() -> None:
+                depth.inner = True
+                box.append(call_step(st, tid=threading.get_ident()))
+
+            th = threading.Thread(target=target)
+            th.start()
+            th.join(timeout=30)
+            return box[0] if box else {"v": "harness", "exn": "inner thread did not finish"}
+        depth.inner = True
+        try:
+            return call_step(st)
+        finally:
+            depth.inner = False
+
+    cur_step = threading.local()
+    body_barriers: list = []
+
+    def body_rendezvous() -> None:
+        i = getattr(cur_step, "i", None)
+        if i is None or i >= len(body_barriers):
+            return
+        try:
+            body_barriers[i].wait(timeout=2)
+        except threading.BrokenBarrierError:
+            pass
 
     ns["run_inner"] = run_inner
+    ns["DEPTH"] = depth
+    ns["body_rendezvous"] = body_rendezvous
     try:
         exec(compile(family_source(fam), "<family>", "exec", dont_inherit=True), ns)  # noqa: S102
     except BaseException as e:  # noqa: BLE001
@@ -101,6 +138,7 @@ def run_family(fam: dict) -> dict:
         # every thread runs the whole step list; a barrier makes the calls overlap
         nthreads = fam["threads"]
         barrier = threading.Barrier(nthreads)
+        body_barriers.extend(threading.Barrier(nthreads) for _ in fam["steps"])
         results = [[None] * len(fam["steps"]) for _ in range(nthreads)]
 
         def worker(t: int) -> None:
@@ -109,6 +147,7 @@ def run_family(fam: dict) -> dict:
                     barrier.wait(timeout=10)
                 except threading.BrokenBarrierError:
                     pass
+                cur_step.i = i
                 results[t][i] = call_step(st, tid=threading.get_ident())
 
         ths = [threading.Thread(target=worker, args=(t,)) for t in range(nthreads)]
